@@ -178,7 +178,7 @@ P("C14", "Push subscriptions deliver at least once until the endpoint accepts", 
 ])
 
 # ---- theorems about the small-step concurrent models (separate files: their names would clash with Model.Server)
-HDR_ACTORS = "From Coq Require Import List NArith Arith Bool Lia.\nImport ListNotations.\nFrom Deltio Require Import Model.ConcActors Proofs.ConcActorsP Proofs.ConcActorsX.\n"
+HDR_ACTORS = "From Coq Require Import List NArith Arith Bool Lia Sorting.Sorted.\nImport ListNotations.\nFrom Deltio Require Import Model.ConcActors Proofs.ConcActorsP Proofs.ConcActorsX.\n"
 HDR_CSUB = "From Coq Require Import List NArith Arith Bool Lia.\nImport ListNotations.\nFrom Deltio Require Import Model.ConcSub Proofs.ConcSubP.\n"
 
 PX("C07", "C07_actors", "Every request terminates: no deadlock between topic and subscription actors", HDR_ACTORS, "ConcActorsP.v", [
@@ -237,4 +237,12 @@ PX("C01", "C01_actors", "Fan-out without loss", HDR_ACTORS, "ConcActorsX.v", [
 ])
 PX("C10", "C10_actors", "Topic and subscription namespaces behave as atomic maps", HDR_ACTORS, "ConcActorsX.v", [
  ("C10c_create_observed", "created_is_attached", "concurrent histories: once a CreateSubscription has returned, the topic side observes it at every later moment (until a deletion)"),
+])
+PX("C08", "C08_actors", "Publish order is delivery order; message IDs are issued in order", HDR_ACTORS, "ConcActorsP.v", [
+ ("C08c_posts_in_publish_order", "C08_posts_in_publish_order", "actor model with ghost publish sequence numbers (assigned when the topic dequeues the Publish, as the ids are), any number of concurrent publishers, subscriptions and mailbox capacities, drops and deletions anywhere: for every subscription the sequence numbers of the posts it has handled followed by those queued in its mailbox strictly increase and stay below the topic's counter; the Publish in progress has reached exactly the subscriptions that left its pending list"),
+ ("C08c_no_duplicate", "C08_no_duplicate", "no Publish is posted twice to a subscription"),
+ ("C08c_log_in_publish_order", "C08_log_in_publish_order", "the batches a subscription appends to its backlog come in the order in which the topic accepted the publishes"),
+ ("C08c_topic_waits", "C08_topic_waits", "while a Publish is in progress the topic dequeues nothing and cannot finish before every post task is done"),
+ ("C08c_publish_posts_to_all_attached", "C08_publish_posts_to_all_attached", "dequeuing a Publish creates one post task per attached subscription"),
+ ("C08c_refuted_without_await", "C08_refuted_without_await", "a topic that answered the publisher without waiting for its post tasks can deliver publish 1 before publish 0 (the seeded change C08-r2, found on the implementation by orderstress)"),
 ])
